@@ -62,6 +62,8 @@ type vf27Run struct {
 	PartMs int        `json:"partMs"`
 	SegMs  int        `json:"segMs"`
 	Units  []vf27Unit `json:"units"`
+
+	Ends map[int]int64 `json:"-"` // optional: instant at which each track's last sample ends
 }
 
 var vf27Base = time.Date(2031, 3, 4, 10, 0, 0, 0, time.Local)
@@ -229,6 +231,9 @@ func vf27Record(t testing.TB, dir string, pathName string, run vf27Run) []string
 // vf27Ends gives, per track, the instant at which the track's last sample ends: the last sample of
 // a track lasts as long as the one before it (or 20 ms when the track has one sample).
 func vf27Ends(run vf27Run) map[int]int64 {
+	if run.Ends != nil {
+		return run.Ends
+	}
 	prev := map[int]int64{}
 	lastT := map[int]int64{}
 	seen := map[int]int{}
@@ -711,19 +716,19 @@ func (c *vf27Child) do(rq vf27Req) (rs vf27Resp, alive bool, crash string) {
 
 // vf27Seg is what the harness knows about one recorded segment file.
 type vf27Seg struct {
-	Path    string
-	Bytes   []byte
-	Boxes   []vf27Box
-	Units   []int          // start offset of unit i (0 = header, i = part i); last entry = file length
-	Zones   [][4]int       // per unit: start offsets of its four zones
-	Parts   [][]vf27Sample // samples of part i (index 0 = part 1), parsed with mediacommon
-	DurOff  int            // offset of mvhd.DurationV0
-	HdrDur  int64          // ms
-	LayoutErr string       // not "" if the file is not header + (moof mdat)*: only Boxes is filled then
-	StartMs int64          // file-name instant, ms after vf27Base
-	Stream  string         // mtxi stream id (hex)
-	Number  uint64         // mtxi segment number
-	DTSMs   int64          // mtxi DTS, ms
+	Path      string
+	Bytes     []byte
+	Boxes     []vf27Box
+	Units     []int          // start offset of unit i (0 = header, i = part i); last entry = file length
+	Zones     [][4]int       // per unit: start offsets of its four zones
+	Parts     [][]vf27Sample // samples of part i (index 0 = part 1), parsed with mediacommon
+	DurOff    int            // offset of mvhd.DurationV0
+	HdrDur    int64          // ms
+	LayoutErr string         // not "" if the file is not header + (moof mdat)*: only Boxes is filled then
+	StartMs   int64          // file-name instant, ms after vf27Base
+	Stream    string         // mtxi stream id (hex)
+	Number    uint64         // mtxi segment number
+	DTSMs     int64          // mtxi DTS, ms
 }
 
 func vf27LoadSeg(t testing.TB, fpath string) *vf27Seg {
